@@ -136,15 +136,290 @@ fn expr_text(rule: &Rule) -> String {
     s
 }
 
-/// The generic life-cycle runner used by most topics.
-///
-/// plan keys (all optional): "sws": list of switch arrays / null, "tri": bool, "via_value": bool,
-/// "expr": bool (record printed expressions), "repeat": n (optimise n times and compare prints).
-pub fn run_life(case: &J, out: &mut Out, ic_build: bool) {
+
+// ---------------------------------------------------------------------------------------------
+// adversarial documents: every value kind on every field the rule names (C03)
+
+fn collect_fields(src: &J) -> Vec<String> {
+    fn body(b: &J, prefix: &str, out: &mut Vec<String>) {
+        match b["t"].as_str().unwrap_or("") {
+            "seq" => {
+                for m in b["ms"].as_array().unwrap_or(&vec![]) {
+                    body(m, prefix, out);
+                }
+            }
+            "map" => {
+                for e in b["es"].as_array().unwrap_or(&vec![]) {
+                    let f = match e.get("f").map(str_of) {
+                        Some(Ok(f)) => f,
+                        _ => continue,
+                    };
+                    let path = if prefix.is_empty() { f } else { format!("{}.{}", prefix, f) };
+                    out.push(path.clone());
+                    let v = &e["v"];
+                    if v["t"] == "map" {
+                        body(v, &path, out);
+                    } else if v["t"] == "list" {
+                        for x in v["vs"].as_array().unwrap_or(&vec![]) {
+                            if x["t"] == "map" {
+                                body(x, &path, out);
+                            }
+                        }
+                    }
+                }
+            }
+            _ => {}
+        }
+    }
+    fn cond(c: &J, out: &mut Vec<String>) {
+        match c["t"].as_str().unwrap_or("") {
+            "and" | "or" => {
+                cond(&c["l"], out);
+                cond(&c["r"], out);
+            }
+            "not" | "par" => cond(&c["e"], out),
+            "cmp" => {
+                for o in [&c["l"], &c["r"]] {
+                    let o = if o["t"] == "par" { &o["e"] } else { o };
+                    if o["t"] == "cast" {
+                        if let Ok(f) = str_of(&o["f"]) {
+                            out.push(f);
+                        }
+                    }
+                }
+            }
+            "text" => {
+                // field names inside casts of a textual condition: int(f) flt(g) str(h)
+                if let Ok(t) = str_of(&c["s"]) {
+                    for kw in ["int(", "flt(", "str(", "string("] {
+                        let mut rest = t.as_str();
+                        while let Some(p) = rest.find(kw) {
+                            let after = &rest[p + kw.len()..];
+                            if let Some(q) = after.find(')') {
+                                out.push(after[..q].trim().to_string());
+                            }
+                            rest = after;
+                        }
+                    }
+                }
+            }
+            _ => {}
+        }
+    }
+    let mut out = vec![];
+    for pair in src["ids"].as_array().unwrap_or(&vec![]) {
+        body(&pair[1], "", &mut out);
+    }
+    cond(&src["cond"], &mut out);
+    out.sort();
+    out.dedup();
+    out.retain(|f| !f.is_empty() && !f.contains('[') && f.split('.').all(|s| !s.is_empty()));
+    out
+}
+
+fn nest(path: &str, v: J) -> (String, J) {
+    match path.split_once('.') {
+        None => (path.to_string(), v),
+        Some((h, r)) => {
+            let (k, inner) = nest(r, v);
+            (h.to_string(), json!({"t":"O","kv":[[cps(&k), inner]]}))
+        }
+    }
+}
+
+pub fn adversarial_docs(src: &J) -> Vec<J> {
+    let fields = collect_fields(src);
+    let s = |x: &str| json!({"t":"S","s":cps(x)});
+    let i = |neg: bool, d: &str| json!({"t":"I","neg":neg,"d":digits(d)});
+    let kinds: Vec<J> = vec![
+        s(""),
+        s("x"),
+        s("1"),
+        s("-1.5"),
+        i(false, "0"),
+        i(false, "1"),
+        i(true, "1"),
+        i(false, "9223372036854775807"),
+        i(true, "9223372036854775808"),
+        i(false, "9223372036854775808"),
+        i(false, "18446744073709551615"),
+        json!({"t":"F","neg":false,"d":[1],"fr":[5],"sp":""}),
+        json!({"t":"F","neg":true,"d":[],"fr":[],"sp":""}),
+        json!({"t":"F","neg":false,"d":[],"fr":[],"sp":"nan"}),
+        json!({"t":"F","neg":false,"d":[],"fr":[],"sp":"inf"}),
+        json!({"t":"F","neg":true,"d":[],"fr":[],"sp":"inf"}),
+        json!({"t":"B","b":true}),
+        json!({"t":"B","b":false}),
+        json!({"t":"N"}),
+        json!({"t":"A","vs":[]}),
+        json!({"t":"A","vs":[s("x"), i(false, "1"), {"t":"N"}, {"t":"B","b":true}, {"t":"A","vs":[]}, {"t":"O","kv":[]}]}),
+        json!({"t":"A","vs":[{"t":"O","kv":[[cps("f"), s("x")]]}, {"t":"O","kv":[]}, s("x")]}),
+        json!({"t":"O","kv":[]}),
+        json!({"t":"O","kv":[[cps("f"), s("x")], [cps("g"), i(false, "1")], [cps("t"), {"t":"N"}], [cps("u"), {"t":"A","vs":[s("x")]}]]}),
+    ];
+    let mut docs = vec![json!({"t":"O","kv":[]})];
+    // one document per kind: every field gets that kind (nested paths share their prefix, so
+    // fields whose path passes through another field are placed in separate documents)
+    for k in &kinds {
+        let mut kv: Vec<(String, J)> = vec![];
+        for f in &fields {
+            let (h, v) = nest(f, k.clone());
+            if !kv.iter().any(|(x, _)| *x == h) {
+                kv.push((h, v));
+            }
+        }
+        docs.push(json!({"t":"O","kv":kv.iter().map(|(k, v)| json!([cps(k), v])).collect::<Vec<_>>()}));
+    }
+    // rotating mixtures: field j gets kind (j + r)
+    for r in 0..kinds.len().min(8) {
+        let mut kv: Vec<(String, J)> = vec![];
+        for (j, f) in fields.iter().enumerate() {
+            let (h, v) = nest(f, kinds[(j * 5 + r * 3) % kinds.len()].clone());
+            if !kv.iter().any(|(x, _)| *x == h) {
+                kv.push((h, v));
+            }
+        }
+        docs.push(json!({"t":"O","kv":kv.iter().map(|(k, v)| json!([cps(k), v])).collect::<Vec<_>>()}));
+    }
+    docs
+}
+
+// ---------------------------------------------------------------------------------------------
+// examples (validate)
+
+const MARK_KEY: &str = "zzmark";
+
+/// examples: [{"d": doc index}] (a mapping, tagged with a unique marker) or [{"raw": DOC}]
+fn example_yaml(ex: &J, docs: &[J], idx: usize) -> Result<Y, String> {
+    if let Some(raw) = ex.get("raw") {
+        return doc_yaml(raw);
+    }
+    let d = ex["d"].as_u64().ok_or("example doc index")? as usize;
+    let mut y = doc_yaml(docs.get(d).ok_or("example doc index out of range")?)?;
+    if let Y::Mapping(m) = &mut y {
+        m.insert(ystr(MARK_KEY), ystr(&format!("MARK{}Q", idx)));
+    }
+    Ok(y)
+}
+
+pub fn validate(rule: &Rule) -> (&'static str, String, String) {
+    match guarded(|| rule.validate()) {
+        Ok(Ok(_)) => ("ok", String::new(), String::new()),
+        Ok(Err(e)) => ("err", format!("{:?}", e.kind()), format!("{:?}", e)),
+        Err(()) => ("panic", String::new(), String::new()),
+    }
+}
+
+// ---------------------------------------------------------------------------------------------
+
+fn match_repr(rule: &Rule, d: &J, repr: &str, variant: u64) -> Result<&'static str, String> {
+    Ok(match repr {
+        "yaml" => match doc_yaml(d)? {
+            Y::Mapping(m) => matches(rule, &m),
+            _ => return Err("root is not a mapping".into()),
+        },
+        "json" => matches(rule, &doc_json(d)?),
+        "jsontext" => {
+            let t = serde_json::to_string(&doc_json(d)?).map_err(|e| e.to_string())?;
+            let v: J = serde_json::from_str(&t).map_err(|e| e.to_string())?;
+            matches(rule, &v)
+        }
+        "yamltext" => {
+            let t = serde_yaml::to_string(&doc_yaml(d)?).map_err(|e| e.to_string())?;
+            let v: Y = serde_yaml::from_str(&t).map_err(|e| e.to_string())?;
+            match v {
+                Y::Mapping(m) => matches(rule, &m),
+                _ => return Err("root is not a mapping".into()),
+            }
+        }
+        "hm" => matches(rule, &std_root(d, variant)?),
+        "own" => matches(rule, &own_root(d, false)?),
+        "ownsigned" => matches(rule, &own_root(d, true)?),
+        "doc" => matches(rule, &OwnDoc(own_root(d, false)?)),
+        x => return Err(format!("unknown representation {}", x)),
+    })
+}
+
+fn detection_fingerprint(rule: &Rule) -> Result<String, String> {
+    // the serialised form, re-parsed to a YAML value with mapping keys sorted (identifier order
+    // in the serialised text is HashMap order and carries no meaning)
+    let text = serde_yaml::to_string(rule).map_err(|e| e.to_string())?;
+    let v: Y = serde_yaml::from_str(&text).map_err(|e| e.to_string())?;
+    fn canon(v: &Y, top: bool) -> String {
+        match v {
+            Y::Mapping(m) => {
+                let mut items: Vec<(String, String)> =
+                    m.iter().map(|(k, v)| (canon(k, false), canon(v, false))).collect();
+                if top {
+                    items.sort();
+                }
+                format!("{{{}}}", items.iter().map(|(k, v)| format!("{}:{}", k, v)).collect::<Vec<_>>().join(","))
+            }
+            Y::Sequence(s) => format!("[{}]", s.iter().map(|x| canon(x, false)).collect::<Vec<_>>().join(",")),
+            Y::String(s) => format!("{:?}", s),
+            Y::Number(n) => format!("#{}", n),
+            Y::Bool(b) => format!("{}", b),
+            Y::Null => "~".into(),
+            Y::Tagged(t) => format!("!{}", canon(&t.value, false)),
+        }
+    }
+    // detection: identifiers sorted by name, bodies in written order
+    let det = match v.get("detection") {
+        Some(Y::Mapping(m)) => {
+            let mut items: Vec<(String, String)> =
+                m.iter().map(|(k, v)| (canon(k, false), canon(v, false))).collect();
+            items.sort();
+            format!("{:?}", items)
+        }
+        _ => "none".into(),
+    };
+    Ok(format!(
+        "det={} tp={} tn={}",
+        det,
+        v.get("true_positives").map(|x| canon(x, false)).unwrap_or_default(),
+        v.get("true_negatives").map(|x| canon(x, false)).unwrap_or_default()
+    ))
+}
+
+/// The generic life-cycle runner used by most topics.  plan keys (all optional):
+///  sws        list of switch arrays ([] = not optimised); default [[]]
+///  tri        observe three-valued results through the negated twin
+///  via_value  also load through Rule::from_value
+///  expr       record the printed expression of every object
+///  repeat     optimise each switch set this many extra times (prints must agree)
+///  adv        append adversarial documents
+///  reprs      extra document representations to match through
+///  validate   call validate() on every object (examples: case.tps / case.tns)
+///  ser        serialise every object, reload it, match on the reloaded object
+///  threads    match every document from this many threads sharing one &Rule
+pub fn run_life(case_in: &J, out: &mut Out, ic_build: bool) {
+    let mut case = case_in.clone();
+    let plan = case_in["plan"].clone();
+    let src = case_in["src"].clone();
+    if plan["adv"].as_bool().unwrap_or(false) {
+        let mut docs = case["docs"].as_array().cloned().unwrap_or_default();
+        docs.extend(adversarial_docs(&src));
+        case["docs"] = J::Array(docs);
+    }
+    let docs_j: Vec<J> = case["docs"].as_array().cloned().unwrap_or_default();
     out.ev(json!({"ev":"case","c":case}));
-    let src = &case["src"];
-    let plan = &case["plan"];
-    let rendered = match rule_yaml(src, &[], &[], ic_build) {
+    // examples
+    let mut tps: Vec<Y> = vec![];
+    let mut tns: Vec<Y> = vec![];
+    let mut n_ex = 0usize;
+    for (key, dst) in [("tps", &mut tps), ("tns", &mut tns)] {
+        for ex in case[key].as_array().cloned().unwrap_or_default() {
+            match example_yaml(&ex, &docs_j, n_ex) {
+                Ok(y) => dst.push(y),
+                Err(e) => {
+                    out.ev(json!({"ev":"skip","why":cps(&e)}));
+                    return;
+                }
+            }
+            n_ex += 1;
+        }
+    }
+    let rendered = match rule_yaml(&src, &tps, &tns, ic_build) {
         Ok(r) => r,
         Err(e) => {
             out.ev(json!({"ev":"skip","why":cps(&e)}));
@@ -161,10 +436,9 @@ pub fn run_life(case: &J, out: &mut Out, ic_build: bool) {
         Loaded::Ok(r) => r,
         _ => return,
     };
-    // the negated twin, for three-valued observation
     let want_tri = plan["tri"].as_bool().unwrap_or(false);
     let neg_rule = if want_tri {
-        match rule_yaml(&negated(src), &[], &[], ic_build).map(|r| load_text(&r.text)) {
+        match rule_yaml(&negated(&src), &[], &[], ic_build).map(|r| load_text(&r.text)) {
             Ok(Loaded::Ok(r)) => Some(r),
             _ => None,
         }
@@ -174,51 +448,148 @@ pub fn run_life(case: &J, out: &mut Out, ic_build: bool) {
     if want_tri && neg_rule.is_none() {
         out.ev(json!({"ev":"skip","why":cps("negated twin does not load")}));
     }
-    let docs: Vec<Result<Y, String>> = case["docs"]
-        .as_array()
-        .map(|a| a.iter().map(doc_yaml).collect())
-        .unwrap_or_default();
+    let docs: Vec<Result<Y, String>> = docs_j.iter().map(doc_yaml).collect();
     let sws = match plan["sws"].as_array() {
         Some(a) => a.clone(),
         None => vec![json!([])],
     };
-    for (k, sw) in sws.iter().enumerate() {
-        let obj = match optimise(&rule, sw) {
-            Ok(r) => {
-                let mut e = json!({"ev":"opt","obj":k,"sw":sw,"out":"ok"});
-                if plan["expr"].as_bool().unwrap_or(false) {
-                    e["expr"] = cps(&expr_text(&r));
+    let reprs: Vec<String> = plan["reprs"]
+        .as_array()
+        .map(|a| a.iter().filter_map(|x| x.as_str().map(|s| s.to_string())).collect())
+        .unwrap_or_default();
+    let want_expr = plan["expr"].as_bool().unwrap_or(false);
+    let repeat = plan["repeat"].as_u64().unwrap_or(0);
+    let nthreads = plan["threads"].as_u64().unwrap_or(0) as usize;
+    let mut k = 0usize; // object counter
+    for sw in sws.iter() {
+        for rep in 0..=repeat {
+            let obj = match optimise(&rule, sw) {
+                Ok(r) => {
+                    let mut e = json!({"ev":"opt","obj":k,"sw":sw,"out":"ok"});
+                    if want_expr {
+                        e["expr"] = cps(&expr_text(&r));
+                    }
+                    out.ev(e);
+                    r
                 }
-                out.ev(e);
-                r
-            }
-            Err(()) => {
-                out.ev(json!({"ev":"opt","obj":k,"sw":sw,"out":"panic"}));
-                continue;
-            }
-        };
-        let nobj = match &neg_rule {
-            Some(n) => optimise(n, sw).ok(),
-            None => None,
-        };
-        for (i, d) in docs.iter().enumerate() {
-            let d = match d {
-                Ok(Y::Mapping(m)) => m,
-                _ => continue,
+                Err(()) => {
+                    out.ev(json!({"ev":"opt","obj":k,"sw":sw,"out":"panic"}));
+                    k += 1;
+                    continue;
+                }
             };
-            let m = matches(&obj, d);
-            out.ev(json!({"ev":"match","obj":k,"d":i,"repr":"yaml","out":m}));
-            if want_tri {
-                if let Some(n) = &nobj {
-                    let nm = matches(n, d);
-                    let tri = match (m, nm) {
-                        ("t", "f") => "T",
-                        ("f", "t") => "F",
-                        ("f", "f") => "M",
-                        ("t", "t") => "X",
-                        _ => "P",
-                    };
-                    out.ev(json!({"ev":"tri","obj":k,"d":i,"out":tri}));
+            let me = k;
+            k += 1;
+            if rep > 0 {
+                continue; // repeats only compare prints
+            }
+            let nobj = match &neg_rule {
+                Some(n) => optimise(n, sw).ok(),
+                None => None,
+            };
+            for (i, d) in docs.iter().enumerate() {
+                let d = match d {
+                    Ok(Y::Mapping(m)) => m,
+                    _ => continue,
+                };
+                let m = matches(&obj, d);
+                out.ev(json!({"ev":"match","obj":me,"d":i,"repr":"yaml","out":m}));
+                if want_tri {
+                    if let Some(n) = &nobj {
+                        let nm = matches(n, d);
+                        let tri = match (m, nm) {
+                            ("t", "f") => "T",
+                            ("f", "t") => "F",
+                            ("f", "f") => "M",
+                            ("t", "t") => "X",
+                            _ => "P",
+                        };
+                        out.ev(json!({"ev":"tri","obj":me,"d":i,"out":tri}));
+                    }
+                }
+                for (ri, repr) in reprs.iter().enumerate() {
+                    match match_repr(&obj, &docs_j[i], repr, (i * 7 + ri) as u64) {
+                        Ok(m) => out.ev(json!({"ev":"match","obj":me,"d":i,"repr":repr,"out":m})),
+                        Err(_) => {}
+                    }
+                }
+            }
+            if nthreads > 0 {
+                let maps: Vec<(usize, &serde_yaml::Mapping)> = docs
+                    .iter()
+                    .enumerate()
+                    .filter_map(|(i, d)| match d {
+                        Ok(Y::Mapping(m)) => Some((i, m)),
+                        _ => None,
+                    })
+                    .collect();
+                let results: Vec<Vec<(usize, &'static str)>> = std::thread::scope(|s| {
+                    let hs: Vec<_> = (0..nthreads)
+                        .map(|t| {
+                            let obj = &obj;
+                            let maps = &maps;
+                            s.spawn(move || {
+                                let mut v = vec![];
+                                // each thread walks the documents in its own order
+                                for j in 0..maps.len() {
+                                    let (i, m) = maps[(j * (2 * t + 1) + t) % maps.len()];
+                                    v.push((i, matches(obj, m)));
+                                }
+                                v
+                            })
+                        })
+                        .collect();
+                    hs.into_iter().map(|h| h.join().unwrap_or_default()).collect()
+                });
+                for (t, v) in results.iter().enumerate() {
+                    for (seq, (i, m)) in v.iter().enumerate() {
+                        out.ev(json!({"ev":"match","obj":me,"d":i,"repr":"yaml","thr":t + 1,"seq":seq,"out":m}));
+                    }
+                }
+            }
+            if plan["validate"].as_bool().unwrap_or(false) {
+                let (o, kind, msg) = validate(&obj);
+                let named: Vec<usize> = (0..n_ex).filter(|i| msg.contains(&format!("MARK{}Q", i))).collect();
+                out.ev(json!({"ev":"validate","obj":me,"out":o,"kind":kind,"named":named}));
+            }
+            if plan["ser"].as_bool().unwrap_or(false) {
+                let text = guarded(|| serde_yaml::to_string(&obj));
+                match text {
+                    Ok(Ok(text)) => {
+                        out.ev(json!({"ev":"ser","obj":me,"out":"ok"}));
+                        let fp0 = detection_fingerprint(&rule).unwrap_or_else(|e| format!("err0:{}", e));
+                        for via in ["str", "value"] {
+                            let re = if via == "str" {
+                                load_text(&text)
+                            } else {
+                                match serde_yaml::from_str::<Y>(&text) {
+                                    Ok(v) => load_value(v),
+                                    Err(e) => Loaded::Err(e.to_string()),
+                                }
+                            };
+                            let tag = re.tag();
+                            match re {
+                                Loaded::Ok(r2) => {
+                                    let fp1 = detection_fingerprint(&r2).unwrap_or_else(|e| format!("err1:{}", e));
+                                    out.ev(json!({"ev":"reload","from":me,"obj":k,"via":via,"out":"ok","same":fp0 == fp1}));
+                                    let me2 = k;
+                                    k += 1;
+                                    for (i, d) in docs.iter().enumerate() {
+                                        if let Ok(Y::Mapping(m)) = d {
+                                            let mm = matches(&r2, m);
+                                            out.ev(json!({"ev":"match","obj":me2,"d":i,"repr":"yaml","out":mm}));
+                                        }
+                                    }
+                                }
+                                _ => {
+                                    out.ev(json!({"ev":"reload","from":me,"obj":k,"via":via,"out":tag,"same":false}));
+                                    k += 1;
+                                }
+                            }
+                        }
+                    }
+                    Ok(Err(_)) => out.ev(json!({"ev":"ser","obj":me,"out":"err"})),
+                    Err(()) => out.ev(json!({"ev":"ser","obj":me,"out":"panic"})),
                 }
             }
         }
